@@ -371,6 +371,9 @@ impl<'a> CodeGenerator<'a> {
     fn finalize(&mut self, mut term: Term<Name>) -> Program<Name> {
         term = self.special_functions.apply_used_functions(term);
 
+        #[cfg(feature = "verif-hooks")]
+        crate::verif_hooks::record_pre_optimisation(&self.new_program(term.clone()));
+
         let program = aiken_optimize_and_intern(self.new_program(term));
 
         // This is very important to call here.
